@@ -1,5 +1,7 @@
 import ColaVerif.Lemmas.GMRESWitness
 import ColaVerif.Lemmas.Hess3
+import ColaVerif.Lemmas.GMRESBatch
+import ColaVerif.Lemmas.Hess3Cap1
 
 /-!
 # C13 — GMRES returns the residual-minimising iterate of its Krylov space
@@ -43,6 +45,21 @@ ROUND 2 (second half of this file; nothing above was changed):
   (`A^s r₀ ∈ K_s`) / at `s = n = dim E`, for an injective `A`; the former clause `krylovRegular` is proved;
 * witnesses on the 3 × 3 non-symmetric system `[[1,1,0],[2,1,1],[0,3,1]]` (`Lemmas/Hess3.lean`):
   `C13_hypotheses_witness`, `C13_exact_witness`.
+ROUND 3 (third part of this file; nothing above was changed):
+* `s` versus `m = max_iters`: `C13_steps` — `s = min(max_iters, n, first index k ≥ 1 at which the tolerance test of the
+  Arnoldi loop fires)` (`Arnoldi.StopAt`), uniquely; `C13_krylov_optimal_at_cap` — with input-level conditions (Krylov
+  distances neither clip nor trigger the test) `s = min(max_iters, n)` and the iterate is the minimiser over
+  `x₀ + K_{min(m,n)}(A, r₀)`: for `m ≤ n` the `m`-dimensional Krylov space of the property text;
+  `C13_exact_at_grade_of_inputs` — if the grade `g` of `r₀` satisfies `g ≤ min(m, n)` then `s = g` and the residual is
+  zero (every hypothesis except `maskExact` on the inputs).  When the tolerance test fires before `min(m, grade)` the
+  iterate minimises over the smaller `K_s` only — the recorded finding `stopExact`.
+* batches, column-wise: `C13_batch_steps` (the loop is SHARED: `S ≥ s_j` for every column, `S ≤ min(m, n)`),
+  `C13_batch_krylov_optimal` (column `j` minimises over `x₀ⱼ + K_S(A, r₀ⱼ)` when ITS steps are unclipped and ITS mask
+  is exact), `C13_batch_exact_at_grade` / `_of_inputs` (a column whose grade `g ≤ S` has zero residual: a column that
+  keeps being stepped after its breakdown is frozen in exact arithmetic — `GMRES.colAt_views_after_breakdown`; in
+  floating point that is the recorded clause `breakdownNotMasked`).  The columns are coupled ONLY through `S`.
+  Witnesses: `C13_steps_witness`, `C13_batch_witness` (batch `[e₀, e₂]` on the 3 × 3 system),
+  `C13_remaining_bundles_witness` (`C13_monotone` with caps 1 ≤ 2, `C13_exact_at_dim`, `C13_exact_at_grade_input`).
 CONTRACTS that remain: `SolverSound solve` (LAPACK `gesv` in exact arithmetic: on a nonsingular system the returned
 vector solves it); exact real/complex arithmetic.  Clause that remains a condition on the computed `H`: `maskExact`
 (sufficient checkable condition: `GMRES.maskExact_of_entries`; counter-witness `C13_maskExact_clause_needed`).
@@ -417,3 +434,326 @@ theorem C13_exact_witness :
 #print axioms C13_solverSound_witness
 #print axioms C13_hypotheses_witness
 #print axioms C13_exact_witness
+
+/-! ## Round 3: the step count `s` in terms of `max_iters`; batches column by column -/
+
+/-- **`s = min(max_iters, n, first stop)`**, one column: the number `s` of executed Arnoldi steps all C13 theorems speak
+of is at most `min max_iters n`; the loop ended at that cap or because the tolerance test of `cond_fun`
+(`Arnoldi.StopAt`: `H[k,k-1] ≤ tol · H[1,0]`) fired at `s`; it did not fire at any index `1 ≤ k < s`; and these three
+properties determine `s`.  So for `max_iters ≤ n`: `s = max_iters` unless the test fires earlier (finding `stopExact`
+when that happens before the grade). -/
+theorem C13_steps (A : E →ₗ[𝕜] E) (n M : Nat) (tol : ℝ) (tolPos : 0 < tol) (b x0 : E)
+    (resNonzero : b - A x0 ≠ 0) :
+    (runE A n M tol [b - A x0]).idx ≤ min M n ∧
+    ((runE A n M tol [b - A x0]).idx = min M n ∨
+      StopAt A M tol (b - A x0) (runE A n M tol [b - A x0]).idx) ∧
+    (∀ k, 1 ≤ k → k < (runE A n M tol [b - A x0]).idx → ¬ StopAt A M tol (b - A x0) k) ∧
+    ∀ t, t ≤ min M n → (t = min M n ∨ StopAt A M tol (b - A x0) t) →
+      (∀ k, 1 ≤ k → k < t → ¬ StopAt A M tol (b - A x0) k) → (runE A n M tol [b - A x0]).idx = t := by
+  obtain ⟨h1, h2, h3⟩ := steps_char A M tol (b - A x0) n tolPos resNonzero
+  exact ⟨h1, h2, h3, fun t ht hend hbefore => steps_unique A M tol (b - A x0) n tolPos resNonzero t ht hend hbefore⟩
+
+/-- **C13 over `K_{min(m,n)}`, hypotheses on the inputs**: when the Krylov distances `d_j = dist(A^j r₀, K_j(A, r₀))`
+neither clip (`noBreakdownInput`, all `min m n` steps: the cap is below the grade) nor trigger the relative test
+(`noEarlyStopInput`), the loop runs to the cap and `gmres` returns the residual minimiser over
+`x₀ + K_{min(m,n)}(A, r₀)` — for `m ≤ n` the `m`-dimensional Krylov space of the property text.
+Witness: `C13_steps_witness`. -/
+theorem C13_krylov_optimal_at_cap (solve : Array (Array 𝕜) → Array 𝕜 → Array 𝕜) (A : E →ₗ[𝕜] E)
+    (n M : Nat) (tol : ℝ) (tolPos : 0 < tol) (b x0 : E) (resNonzero : b - A x0 ≠ 0)
+    (noBreakdownInput : ∀ i, i < min M n →
+      tol / 2 * krylovDist A (b - A x0) i ≤ krylovDist A (b - A x0) (i + 1))
+    (noEarlyStopInput : ∀ k, 1 ≤ k → k < min M n →
+      tol * krylovDist A (b - A x0) 1 * krylovDist A (b - A x0) (k - 1) <
+        krylovDist A (b - A x0) k * krylovDist A (b - A x0) 0)
+    (maskExact : MaskExact dropLastRow M tol (min M n) (colAt A M tol (b - A x0) (min M n)))
+    (solverSound : SolverSound solve) :
+    (runE A n M tol [b - A x0]).idx = min M n ∧
+    ∃ x, (gmres solve (⇑A) n M ((tol : ℝ) : 𝕜) [b] [x0]).soln = [x] ∧
+      x - x0 ∈ krylov A (b - A x0) (min M n) ∧
+      ∀ z ∈ krylov A (b - A x0) (min M n), ‖b - A x‖ ≤ ‖b - A (x0 + z)‖ := by
+  have hidx : (runE A n M tol [b - A x0]).idx = min M n :=
+    run_idx_eq_cap_of_input_lt A M tol (b - A x0) n tolPos resNonzero
+      (fun i hi => noBreakdownInput i (by omega)) noEarlyStopInput
+  have h := C13_krylov_optimal_input solve A n M tol tolPos b x0 resNonzero
+    (by rw [hidx]; exact noBreakdownInput) (by rw [hidx]; exact maskExact) solverSound
+  rw [hidx] at h
+  exact ⟨hidx, h⟩
+
+/-- **zero residual once `max_iters` reaches the grade, hypotheses on the inputs**: `g` = grade of the initial
+residual (`gradeReached : A^g r₀ ∈ K_g(A, r₀)`), `g ≤ min m n`, no clip before the last step, no early stop before `g`:
+the loop makes exactly `g` steps and the returned `x` solves the system.  Remaining clause on computed values:
+`maskExact`.  Witness: `C13_steps_witness`. -/
+theorem C13_exact_at_grade_of_inputs (solve : Array (Array 𝕜) → Array 𝕜 → Array 𝕜) (A : E →ₗ[𝕜] E)
+    (n M : Nat) (tol : ℝ) (tolPos : 0 < tol) (b x0 : E) (resNonzero : b - A x0 ≠ 0)
+    (g : Nat) (gradePos : 1 ≤ g) (capReachesGrade : g ≤ min M n)
+    (noClipBeforeLast : ∀ i, i + 1 < g →
+      tol / 2 * krylovDist A (b - A x0) i ≤ krylovDist A (b - A x0) (i + 1))
+    (noEarlyStopInput : ∀ k, 1 ≤ k → k < g →
+      tol * krylovDist A (b - A x0) 1 * krylovDist A (b - A x0) (k - 1) <
+        krylovDist A (b - A x0) k * krylovDist A (b - A x0) 0)
+    (gradeReached : (A ^ g) (b - A x0) ∈ krylov A (b - A x0) g)
+    (maskExact : MaskExact dropLastRow M tol g (colAt A M tol (b - A x0) g))
+    (solverSound : SolverSound solve) (injective : Function.Injective A) :
+    (runE A n M tol [b - A x0]).idx = g ∧
+    ∃ x, (gmres solve (⇑A) n M ((tol : ℝ) : 𝕜) [b] [x0]).soln = [x] ∧ b - A x = 0 := by
+  obtain ⟨hidx, hbreak, hun⟩ := run_idx_eq_grade_of_input A M tol (b - A x0) n tolPos resNonzero g gradePos
+    capReachesGrade noClipBeforeLast noEarlyStopInput gradeReached
+  refine ⟨hidx, ?_⟩
+  apply C13_exact_at_grade_injective solve A n M tol tolPos b x0 resNonzero
+  · rw [hidx]; exact gradePos
+  · rw [hidx]; exact hun
+  · rw [hidx]; exact hbreak
+  · rw [hidx]; exact maskExact
+  · exact solverSound
+  · exact injective
+
+/-- **batches: the shared step count**.  The Arnoldi loop of a batch is ONE loop (`cond_fun`: continue while ANY
+column is large): its step count `S` is at most `min max_iters n` and at least the step count `s_j` of the single
+run of every column.  This is why the one-column theorems do not transfer verbatim: column `j` of a batch is stepped
+`S ≥ s_j` times. -/
+theorem C13_batch_steps (A : E →ₗ[𝕜] E) (n M : Nat) (tol : ℝ) (bs x0s : List E) (j : Nat) (b x0 : E)
+    (hb : bs[j]? = some b) (hx : x0s[j]? = some x0) :
+    (runE A n M tol (List.zipWith (fun b x => b - A x) bs x0s)).idx ≤ min M n ∧
+    (runE A n M tol [b - A x0]).idx ≤ (runE A n M tol (List.zipWith (fun b x => b - A x) bs x0s)).idx := by
+  refine ⟨(run_spec (⇑A) n M ((tol : ℝ) : 𝕜) _).2.1, ?_⟩
+  apply run_idx_batch_ge_single
+  apply List.mem_of_getElem? (i := j)
+  rw [List.getElem?_zipWith, hb, hx]
+
+/-- **C13 for column `j` of a batch** (`S` = shared step count): if THIS column's steps were unclipped and THIS
+column's padding mask is exact, its iterate lies in `x₀ⱼ + K_S(A, r₀ⱼ)` and minimises the residual over it — whatever
+the other columns are (they enter only through `S`, cf. `C13_batch_steps`). -/
+theorem C13_batch_krylov_optimal (solve : Array (Array 𝕜) → Array 𝕜 → Array 𝕜) (A : E →ₗ[𝕜] E)
+    (n M : Nat) (tol : ℝ) (tolPos : 0 < tol) (bs x0s : List E) (j : Nat) (b x0 : E)
+    (hb : bs[j]? = some b) (hx : x0s[j]? = some x0) (resNonzero : b - A x0 ≠ 0)
+    (noBreakdown : ∀ i, i < (runE A n M tol (List.zipWith (fun b x => b - A x) bs x0s)).idx →
+      tol / 2 ≤ (colAt A M tol (b - A x0)
+        (runE A n M tol (List.zipWith (fun b x => b - A x) bs x0s)).idx).beta i)
+    (maskExact : MaskExact dropLastRow M tol (runE A n M tol (List.zipWith (fun b x => b - A x) bs x0s)).idx
+      (colAt A M tol (b - A x0) (runE A n M tol (List.zipWith (fun b x => b - A x) bs x0s)).idx))
+    (solverSound : SolverSound solve) :
+    ∃ x, (gmres solve (⇑A) n M ((tol : ℝ) : 𝕜) bs x0s).soln[j]? = some x ∧
+      x - x0 ∈ krylov A (b - A x0) (runE A n M tol (List.zipWith (fun b x => b - A x) bs x0s)).idx ∧
+      ∀ z ∈ krylov A (b - A x0) (runE A n M tol (List.zipWith (fun b x => b - A x) bs x0s)).idx,
+        ‖b - A x‖ ≤ ‖b - A (x0 + z)‖ := by
+  have hSM : (runE A n M tol (List.zipWith (fun b x => b - A x) bs x0s)).idx ≤ M :=
+    le_trans (run_spec (⇑A) n M ((tol : ℝ) : 𝕜) _).2.1 (min_le_left _ _)
+  obtain ⟨h1, h2⟩ := krylov_optimal (solve := solve) tolPos resNonzero hSM noBreakdown maskExact solverSound
+    b x0 rfl
+  refine ⟨_, gmresCore_batch_get solve false A n M tol bs x0s j b x0 hb hx, ?_, h2⟩
+  unfold colSoln
+  rw [add_sub_cancel_left]
+  exact h1
+
+/-- **zero residual for column `j` of a batch once the shared loop has passed its grade**: if the Krylov space of
+THIS column's residual is exhausted after `g ≤ S` steps (exact breakdown in step `g - 1`, none earlier), the column
+is solved exactly — also when `g < S`, i.e. when other columns kept the loop running (in exact arithmetic a dead
+column stays frozen; in floating point that is the recorded clause `breakdownNotMasked`). -/
+theorem C13_batch_exact_at_grade (solve : Array (Array 𝕜) → Array 𝕜 → Array 𝕜) (A : E →ₗ[𝕜] E)
+    (n M : Nat) (tol : ℝ) (tolPos : 0 < tol) (bs x0s : List E) (j : Nat) (b x0 : E)
+    (hb : bs[j]? = some b) (hx : x0s[j]? = some x0) (resNonzero : b - A x0 ≠ 0)
+    (g : Nat) (gradePos : 0 < g)
+    (gradePassed : g ≤ (runE A n M tol (List.zipWith (fun b x => b - A x) bs x0s)).idx)
+    (noEarlierBreakdown : ∀ i, i + 1 < g → tol / 2 ≤ (colAt A M tol (b - A x0) g).beta i)
+    (exactBreakdown : (colAt A M tol (b - A x0) g).beta (g - 1) = 0)
+    (maskExact : MaskExact dropLastRow M tol g (colAt A M tol (b - A x0) g))
+    (solverSound : SolverSound solve) (injective : Function.Injective A) :
+    ∃ x, (gmres solve (⇑A) n M ((tol : ℝ) : 𝕜) bs x0s).soln[j]? = some x ∧ b - A x = 0 := by
+  have hSM : (runE A n M tol (List.zipWith (fun b x => b - A x) bs x0s)).idx ≤ M :=
+    le_trans (run_spec (⇑A) n M ((tol : ℝ) : 𝕜) _).2.1 (min_le_left _ _)
+  refine ⟨_, gmresCore_batch_get solve false A n M tol bs x0s j b x0 hb hx, ?_⟩
+  rw [colSoln_after_breakdown solve false A M tol tolPos b x0 resNonzero g _ gradePos gradePassed hSM
+    exactBreakdown]
+  exact exact_at_breakdown_sound (solve := solve) tolPos resNonzero (le_trans gradePassed hSM) gradePos
+    noEarlierBreakdown exactBreakdown maskExact solverSound injective b x0 rfl
+
+/-- the same with the column's hypotheses on the INPUTS (those of `C13_exact_at_grade_of_inputs` for this column):
+then its single run makes `g` steps, so the shared loop makes at least `g` (`C13_batch_steps`) and the column is solved
+exactly — no hypothesis about the other columns at all -/
+theorem C13_batch_exact_at_grade_of_inputs (solve : Array (Array 𝕜) → Array 𝕜 → Array 𝕜) (A : E →ₗ[𝕜] E)
+    (n M : Nat) (tol : ℝ) (tolPos : 0 < tol) (bs x0s : List E) (j : Nat) (b x0 : E)
+    (hb : bs[j]? = some b) (hx : x0s[j]? = some x0) (resNonzero : b - A x0 ≠ 0)
+    (g : Nat) (gradePos : 1 ≤ g) (capReachesGrade : g ≤ min M n)
+    (noClipBeforeLast : ∀ i, i + 1 < g →
+      tol / 2 * krylovDist A (b - A x0) i ≤ krylovDist A (b - A x0) (i + 1))
+    (noEarlyStopInput : ∀ k, 1 ≤ k → k < g →
+      tol * krylovDist A (b - A x0) 1 * krylovDist A (b - A x0) (k - 1) <
+        krylovDist A (b - A x0) k * krylovDist A (b - A x0) 0)
+    (gradeReached : (A ^ g) (b - A x0) ∈ krylov A (b - A x0) g)
+    (maskExact : MaskExact dropLastRow M tol g (colAt A M tol (b - A x0) g))
+    (solverSound : SolverSound solve) (injective : Function.Injective A) :
+    ∃ x, (gmres solve (⇑A) n M ((tol : ℝ) : 𝕜) bs x0s).soln[j]? = some x ∧ b - A x = 0 := by
+  obtain ⟨hidx, hbreak, hun⟩ := run_idx_eq_grade_of_input A M tol (b - A x0) n tolPos resNonzero g gradePos
+    capReachesGrade noClipBeforeLast noEarlyStopInput gradeReached
+  have hge := (C13_batch_steps A n M tol bs x0s j b x0 hb hx).2
+  rw [hidx] at hge
+  exact C13_batch_exact_at_grade solve A n M tol tolPos bs x0s j b x0 hb hx resNonzero g gradePos hge hun hbreak
+    maskExact solverSound injective
+
+/-- **witness for the input-level bundles** on `A = [[1,1,0],[2,1,1],[0,3,1]]`, `b = e₀`, `x₀ = 0`, `tol = 1/100`
+(Krylov distances `1, 2, 6, 0`): (1) `max_iters = 2`: all hypotheses of `C13_krylov_optimal_at_cap` hold, so `s = 2`
+and the iterate minimises over `K₂`; (2) `max_iters = 3`, `g = 3`: all hypotheses of `C13_exact_at_grade_of_inputs`
+hold, so `s = 3` and the system is solved; in both runs the tolerance test never fires (`C13_steps`: `s` = cap). -/
+theorem C13_steps_witness :
+    ((runE Hess3.A 3 2 (1 / 100) [Hess3.e 0 - Hess3.A 0]).idx = min 2 3 ∧
+      ∃ x, (gmres exactSolve (⇑Hess3.A) 3 2 (RCLike.ofReal (1 / 100 : ℝ) : ℝ) [Hess3.e 0] [0]).soln = [x] ∧
+        x - 0 ∈ krylov Hess3.A (Hess3.e 0 - Hess3.A 0) (min 2 3) ∧
+        ∀ z ∈ krylov Hess3.A (Hess3.e 0 - Hess3.A 0) (min 2 3),
+          ‖Hess3.e 0 - Hess3.A x‖ ≤ ‖Hess3.e 0 - Hess3.A (0 + z)‖) ∧
+    ((runE Hess3.A 3 3 (1 / 100) [Hess3.e 0 - Hess3.A 0]).idx = 3 ∧
+      ∃ x, (gmres exactSolve (⇑Hess3.A) 3 3 (RCLike.ofReal (1 / 100 : ℝ) : ℝ) [Hess3.e 0] [0]).soln = [x] ∧
+        Hess3.e 0 - Hess3.A x = 0) := by
+  have hr : Hess3.e 0 - Hess3.A 0 = Hess3.e 0 := by simp
+  obtain ⟨d0, d1, d2, d3⟩ := Hess3.krylovDist_vals
+  have hgrow : ∀ i, i < 2 → (1 / 100 : ℝ) / 2 * krylovDist Hess3.A (Hess3.e 0) i ≤
+      krylovDist Hess3.A (Hess3.e 0) (i + 1) := by
+    intro i hi
+    have : i = 0 ∨ i = 1 := by omega
+    rcases this with rfl | rfl
+    · rw [d0, d1]; norm_num
+    · rw [d1, d2]; norm_num
+  have hstop : ∀ k, 1 ≤ k → k < 3 →
+      (1 / 100 : ℝ) * krylovDist Hess3.A (Hess3.e 0) 1 * krylovDist Hess3.A (Hess3.e 0) (k - 1) <
+        krylovDist Hess3.A (Hess3.e 0) k * krylovDist Hess3.A (Hess3.e 0) 0 := by
+    intro k hk1 hk
+    have : k = 1 ∨ k = 2 := by omega
+    rcases this with rfl | rfl
+    · rw [d0, d1]; norm_num
+    · rw [d0, d1, d2]; norm_num
+  have hgrade : (Hess3.A ^ 3) (Hess3.e 0) ∈ krylov Hess3.A (Hess3.e 0) 3 := by
+    have hcl : IsClosed ((krylov Hess3.A (Hess3.e 0) 3 : Submodule ℝ Hess3.E3) : Set Hess3.E3) :=
+      Submodule.closed_of_finiteDimensional _
+    have hne : ((krylov Hess3.A (Hess3.e 0) 3 : Submodule ℝ Hess3.E3) : Set Hess3.E3).Nonempty :=
+      ⟨0, Submodule.zero_mem _⟩
+    exact (hcl.mem_iff_infDist_zero hne).mpr d3
+  have h23 : min 2 3 = 2 := rfl
+  have h33 : min 3 3 = 3 := rfl
+  constructor
+  · exact C13_krylov_optimal_at_cap exactSolve Hess3.A 3 2 (1 / 100) (by norm_num) (Hess3.e 0) 0
+      (by rw [hr]; exact Hess3.e0_ne)
+      (by rw [hr, h23]; exact hgrow)
+      (by rw [hr, h23]; exact fun k hk1 hk => hstop k hk1 (by omega))
+      (by rw [hr, h23]; exact Hess3.mask2) exactSolve_sound
+  · exact C13_exact_at_grade_of_inputs exactSolve Hess3.A 3 3 (1 / 100) (by norm_num) (Hess3.e 0) 0
+      (by rw [hr]; exact Hess3.e0_ne) 3 (by norm_num) (by rw [h33])
+      (by rw [hr]; exact fun i hi => hgrow i (by omega))
+      (by rw [hr]; exact hstop)
+      (by rw [hr]; exact hgrade)
+      (by rw [hr]; exact Hess3.mask3) exactSolve_sound Hess3.A_injective
+
+/-- **witness for the batch theorems**: the batch `[e₀, e₂]`, `x₀ = [0, 0]` on the same system.  The shared loop makes
+`S = min max_iters 3` steps (it is squeezed between the single run of column 0 and the cap), and column 0 satisfies
+the hypotheses of `C13_batch_krylov_optimal` (`max_iters = 2`) and of `C13_batch_exact_at_grade` (`max_iters = 3`,
+`g = 3 = S`) — hence their conclusions, with a genuinely different second column in the batch. -/
+theorem C13_batch_witness :
+    ((runE Hess3.A 3 2 (1 / 100)
+        (List.zipWith (fun b x => b - Hess3.A x) [Hess3.e 0, Hess3.e 2] [0, 0])).idx = 2 ∧
+      ∃ x, (gmres exactSolve (⇑Hess3.A) 3 2 (RCLike.ofReal (1 / 100 : ℝ) : ℝ)
+          [Hess3.e 0, Hess3.e 2] [0, 0]).soln[0]? = some x ∧
+        ∀ z ∈ krylov Hess3.A (Hess3.e 0 - Hess3.A 0) 2, ‖Hess3.e 0 - Hess3.A x‖ ≤ ‖Hess3.e 0 - Hess3.A (0 + z)‖) ∧
+    ((runE Hess3.A 3 3 (1 / 100)
+        (List.zipWith (fun b x => b - Hess3.A x) [Hess3.e 0, Hess3.e 2] [0, 0])).idx = 3 ∧
+      ∃ x, (gmres exactSolve (⇑Hess3.A) 3 3 (RCLike.ofReal (1 / 100 : ℝ) : ℝ)
+          [Hess3.e 0, Hess3.e 2] [0, 0]).soln[0]? = some x ∧ Hess3.e 0 - Hess3.A x = 0) := by
+  have hr : Hess3.e 0 - Hess3.A 0 = Hess3.e 0 := by simp
+  have hS : ∀ M, 2 ≤ M → M ≤ 3 → (runE Hess3.A 3 M (1 / 100)
+      (List.zipWith (fun b x => b - Hess3.A x) [Hess3.e 0, Hess3.e 2] [0, 0])).idx = M := by
+    intro M hM2 hM3
+    obtain ⟨h1, h2⟩ := C13_batch_steps Hess3.A 3 M (1 / 100) [Hess3.e 0, Hess3.e 2] [0, 0] 0 (Hess3.e 0) 0 rfl rfl
+    rw [hr, Hess3.idx_eq_cap M (1 / 100) hM2 (by norm_num) (by norm_num)] at h2
+    have : min M 3 = M := min_eq_left hM3
+    omega
+  have hS2 := hS 2 (le_refl _) (by norm_num)
+  have hS3 := hS 3 (by norm_num) (le_refl _)
+  refine ⟨⟨hS2, ?_⟩, ⟨hS3, ?_⟩⟩
+  · obtain ⟨x, hx, _, hmin⟩ := C13_batch_krylov_optimal exactSolve Hess3.A 3 2 (1 / 100) (by norm_num)
+      [Hess3.e 0, Hess3.e 2] [0, 0] 0 (Hess3.e 0) 0 rfl rfl (by rw [hr]; exact Hess3.e0_ne)
+      (by
+        rw [hS2, hr]
+        intro i hi
+        rw [Hess3.beta2 2 (1 / 100) (le_refl _) (by norm_num) (by norm_num) i hi]
+        unfold Hess3.bt
+        split <;> norm_num)
+      (by rw [hS2, hr]; exact Hess3.mask2) exactSolve_sound
+    rw [hS2] at hmin
+    exact ⟨x, hx, hmin⟩
+  · exact C13_batch_exact_at_grade exactSolve Hess3.A 3 3 (1 / 100) (by norm_num)
+      [Hess3.e 0, Hess3.e 2] [0, 0] 0 (Hess3.e 0) 0 rfl rfl (by rw [hr]; exact Hess3.e0_ne) 3 (by norm_num)
+      (by rw [hS3])
+      (by
+        rw [hr]
+        intro i hi
+        rw [Hess3.beta_any 3 (1 / 100) 3 (le_refl _) (by norm_num) (by norm_num) (by norm_num) i (by omega)
+          (by omega)]
+        unfold Hess3.bt
+        split <;> norm_num)
+      (by rw [hr]; exact (Hess3.colAt3 3 (1 / 100) (le_refl _) (by norm_num) (by norm_num)).2.2)
+      (by rw [hr]; exact Hess3.mask3) exactSolve_sound Hess3.A_injective
+
+/-- **witness for the hypothesis bundles that had none** (`C13_monotone` with two caps, `C13_exact_at_dim`,
+`C13_exact_at_grade_input`; `C13_krylov_optimal_input` is instantiated inside `C13_steps_witness`), on
+`A = [[1,1,0],[2,1,1],[0,3,1]]`, `b = e₀`, `x₀ = 0`, `tol = 1/100`: the theorems are APPLIED, i.e. every hypothesis is
+discharged — (1) `max_iters = 1 ≤ 2`: residual norms non-increasing; (2) `max_iters = 3 = dim`: zero residual by
+`C13_exact_at_dim`; (3) the same by `C13_exact_at_grade_input` (`A³ e₀ ∈ K₃`). -/
+theorem C13_remaining_bundles_witness :
+    (∃ x x', (gmres exactSolve (⇑Hess3.A) 3 1 (RCLike.ofReal (1 / 100 : ℝ) : ℝ) [Hess3.e 0] [0]).soln = [x] ∧
+      (gmres exactSolve (⇑Hess3.A) 3 2 (RCLike.ofReal (1 / 100 : ℝ) : ℝ) [Hess3.e 0] [0]).soln = [x'] ∧
+      ‖Hess3.e 0 - Hess3.A x'‖ ≤ ‖Hess3.e 0 - Hess3.A x‖) ∧
+    (∃ x, (gmres exactSolve (⇑Hess3.A) 3 3 (RCLike.ofReal (1 / 100 : ℝ) : ℝ) [Hess3.e 0] [0]).soln = [x] ∧
+      Hess3.e 0 - Hess3.A x = 0) ∧
+    (∃ x, (gmres exactSolve (⇑Hess3.A) 3 3 (RCLike.ofReal (1 / 100 : ℝ) : ℝ) [Hess3.e 0] [0]).soln = [x] ∧
+      Hess3.e 0 - Hess3.A x = 0) := by
+  have hr : Hess3.e 0 - Hess3.A 0 = Hess3.e 0 := by simp
+  have ht : (0 : ℝ) < 1 / 100 := by norm_num
+  have ht4 : (1 / 100 : ℝ) ≤ 4 := by norm_num
+  have hidx1 := Hess3.idx_cap1 (1 / 100) ht
+  have hidx2 : (runE Hess3.A 3 2 (1 / 100) [Hess3.e 0]).idx = 2 := by
+    rw [Hess3.idx_eq_cap 2 (1 / 100) (le_refl _) ht (by norm_num)]; rfl
+  have hidx3 : (runE Hess3.A 3 3 (1 / 100) [Hess3.e 0]).idx = 3 := by
+    rw [Hess3.idx_eq_cap 3 (1 / 100) (by norm_num) ht (by norm_num)]; rfl
+  have hun3 : ∀ i, i + 1 < 3 → (1 / 100 : ℝ) / 2 ≤ (colAt Hess3.A 3 (1 / 100) (Hess3.e 0) 3).beta i := by
+    intro i hi
+    rw [Hess3.beta_any 3 (1 / 100) 3 (le_refl _) (by norm_num) ht ht4 i (by omega) (by omega)]
+    unfold Hess3.bt
+    split <;> norm_num
+  have hgrade : (Hess3.A ^ 3) (Hess3.e 0) ∈ krylov Hess3.A (Hess3.e 0) 3 := by
+    have hcl : IsClosed ((krylov Hess3.A (Hess3.e 0) 3 : Submodule ℝ Hess3.E3) : Set Hess3.E3) :=
+      Submodule.closed_of_finiteDimensional _
+    have hne : ((krylov Hess3.A (Hess3.e 0) 3 : Submodule ℝ Hess3.E3) : Set Hess3.E3).Nonempty :=
+      ⟨0, Submodule.zero_mem _⟩
+    exact (hcl.mem_iff_infDist_zero hne).mpr Hess3.krylovDist_vals.2.2.2
+  refine ⟨?_, ?_, ?_⟩
+  · exact C13_monotone exactSolve Hess3.A 3 1 2 (by norm_num) (1 / 100) ht (Hess3.e 0) 0
+      (by rw [hr]; exact Hess3.e0_ne)
+      (by
+        rw [hr, hidx1]
+        intro i hi
+        have : i = 0 := by omega
+        subst this
+        rw [Hess3.beta1 (1 / 100) ht ht4]; norm_num)
+      (by rw [hr, hidx1]; exact Hess3.mask1)
+      (by
+        rw [hr, hidx2]
+        intro i hi
+        rw [Hess3.beta2 2 (1 / 100) (le_refl _) ht ht4 i hi]
+        unfold Hess3.bt
+        split <;> norm_num)
+      (by rw [hr, hidx2]; exact Hess3.mask2) exactSolve_sound
+  · exact C13_exact_at_dim exactSolve Hess3.A 3 3 (1 / 100) ht (Hess3.e 0) 0 (by rw [hr]; exact Hess3.e0_ne)
+      Hess3.finrank_E3 (by norm_num) (by rw [hr]; exact hidx3) (by rw [hr]; exact hun3)
+      (by rw [hr]; exact Hess3.mask3) exactSolve_sound Hess3.A_injective
+  · exact C13_exact_at_grade_input exactSolve Hess3.A 3 3 (1 / 100) ht (Hess3.e 0) 0
+      (by rw [hr]; exact Hess3.e0_ne) (by rw [hr, hidx3]; norm_num) (by rw [hr, hidx3]; exact hun3)
+      (by rw [hr, hidx3]; exact hgrade) (by rw [hr, hidx3]; exact Hess3.mask3) exactSolve_sound
+      Hess3.A_injective
+
+#print axioms C13_steps
+#print axioms C13_krylov_optimal_at_cap
+#print axioms C13_exact_at_grade_of_inputs
+#print axioms C13_batch_steps
+#print axioms C13_batch_krylov_optimal
+#print axioms C13_batch_exact_at_grade
+#print axioms C13_batch_exact_at_grade_of_inputs
+#print axioms C13_steps_witness
+#print axioms C13_batch_witness
+#print axioms C13_remaining_bundles_witness
